@@ -13,6 +13,7 @@ import (
 	dagpb "github.com/ipld/go-codec-dagpb"
 	"github.com/ipld/go-ipld-prime"
 	"github.com/ipld/go-ipld-prime/datamodel"
+	cidlink "github.com/ipld/go-ipld-prime/linking/cid"
 	"github.com/ipld/go-ipld-prime/node/basicnode"
 	"github.com/multiformats/go-multihash"
 
@@ -257,6 +258,14 @@ func listClass(links []pbLinkSpec) string {
 func TestC15(t *testing.T) {
 	r := mon.Start(t, "C15")
 	defer r.Close()
+	for _, f := range []int{8, 16, 256} {
+		for _, byRef := range []bool{false, true} {
+			f, byRef := f, byRef
+			r.Case(fmt.Sprintf("alias-to-own-shard/f%d/ref=%v", f, byRef), map[string]any{"fanout": f, "reference_written": byRef}, func(c *mon.Case) {
+				aliasToOwnShardCase(c, f, byRef)
+			})
+		}
+	}
 	// link lists beyond 2^16 links (short names, one small target): positions do not fit 16 bits
 	for vi, view := range []string{"plain-directory", "generic-link-map"} {
 		vi, view := vi, view
@@ -538,6 +547,131 @@ func TestC15(t *testing.T) {
 			}
 		})
 	}
+}
+
+// aliasToOwnShardCase: a sharded directory one of whose ENTRIES points at the block of one of the
+// directory's own child shards (an entry may link to any CID). Entry and child shard sit in the same
+// shard node, so whatever the reader keeps per link target is shared by the two.
+func aliasToOwnShardCase(c *mon.Case, fanout int, byRef bool) {
+	rr := c.Rand()
+	st := store.New()
+	names := gen.Names(rr, gen.FamASCII, max(fanout, 14))
+	_, model, sizes := childEntries(st, names)
+	build := func(m map[string]cid.Cid) (cid.Cid, error) {
+		if byRef {
+			rs, err := oracle.NewRefShard(st, fanout)
+			if err != nil {
+				return cid.Undef, err
+			}
+			for _, n := range sortedKeys(m) {
+				if err := rs.Set(n, m[n], 7); err != nil {
+					return cid.Undef, err
+				}
+			}
+			root, _, err := rs.Node()
+			return root, err
+		}
+		var es []dagpb.PBLink
+		for _, n := range sortedKeys(m) {
+			e, err := builder.BuildUnixFSDirectoryEntry(n, 7, cidlink.Link{Cid: m[n]})
+			if err != nil {
+				return cid.Undef, err
+			}
+			es = append(es, e)
+		}
+		l, _, err := builder.BuildUnixFSShardedDirectory(fanout, multihash.MURMUR3X64_64, es, st.LinkSystem(false))
+		if err != nil {
+			return cid.Undef, err
+		}
+		return linkCid(l), nil
+	}
+	_ = sizes
+	root, err := build(model)
+	if err != nil {
+		c.Harness("build: %v", err)
+		return
+	}
+	pad := oracle.PadLen(uint64(fanout))
+	childOf := func(root cid.Cid) []cid.Cid {
+		var out []cid.Cid
+		if rn, err := walkerFor(st).Node(root); err == nil {
+			for _, l := range rn.Links {
+				if len(l.Name) == pad {
+					out = append(out, l.Cid)
+				}
+			}
+		}
+		return out
+	}
+	children := childOf(root)
+	if len(children) == 0 {
+		c.Count("alias_cases_without_a_fixture", 1)
+		return
+	}
+	for try := 0; try < 300; try++ {
+		alias := fmt.Sprintf("alias-%d", try)
+		target := children[try%len(children)]
+		m2 := map[string]cid.Cid{alias: target}
+		for k, v := range model {
+			m2[k] = v
+		}
+		root2, err := build(m2)
+		if err != nil {
+			continue
+		}
+		// the alias must have landed in the root itself (as a value) next to the still unchanged child shard
+		still, asValue := false, false
+		if rn, err := walkerFor(st).Node(root2); err == nil {
+			for _, l := range rn.Links {
+				if l.Cid.Equals(target) && len(l.Name) == pad {
+					still = true
+				}
+				if l.Cid.Equals(target) && len(l.Name) > pad && l.Name[pad:] == alias {
+					asValue = true
+				}
+			}
+		}
+		if !still || !asValue {
+			continue
+		}
+		writer := "builder"
+		if byRef {
+			writer = "reference"
+		}
+		for order := 0; order < 3; order++ {
+			node, err := loadReified(st.LinkSystem(false), root2)
+			if err != nil {
+				c.Violation("C15|reify", "%v", err)
+				return
+			}
+			// warm the node in different ways first: nothing, a lookup below the child shard, a Length()
+			switch order {
+			case 1:
+				for _, n := range names {
+					if p, _, _ := walkerFor(st).HamtLookupPath(root2, n); len(p) > 0 && p[0].Equals(target) {
+						node.LookupByString(n)
+						break
+					}
+				}
+			case 2:
+				node.Length()
+			}
+			c.Count("sharded_dirs", 1)
+			c.Count("dirs_with_an_entry_pointing_at_their_own_child_shard", 1)
+			pairs := checkMapContract(c, fmt.Sprintf("fanout-%d sharded directory (by the %s) of %d entries, one of which (%q) links to the block of one of the root's own child shards, warm-up %d", fanout, writer, len(m2), alias, order), node, []string{alias + "x", "alias", ""}, len(m2)+8)
+			if pairs != len(m2) {
+				c.Violation("C15|sharded-pairs", "sharded directory with an entry that links to one of its own child shards: %d pairs for %d entries (warm-up %d)", pairs, len(m2), order)
+			}
+			if v, err := node.LookupByString(alias); err != nil {
+				c.Violation("C15|yielded-key-not-found|entry0", "entry %q, which links to the block of a child shard of the same directory, is not found (warm-up %d): %v", alias, order, err)
+			} else if got, e := asCid(v); e != nil || !got.Equals(target) {
+				c.Violation("C15|lookup-link-not-yielded", "entry %q resolves to %v, want %v", alias, got, target)
+			}
+		}
+		c.Sig(fmt.Sprintf("alias-to-own-shard|f%d|%s", fanout, writer), true)
+		return
+	}
+	c.Count("alias_cases_without_a_fixture", 1) // no candidate name landed in the root next to an unchanged child: nothing to judge
 }
 
 func oracle0(fanout int) string { return strings.Repeat("0", oracle.PadLen(uint64(fanout))) }
